@@ -11,11 +11,15 @@ TECHNIQUE = ("Coq proofs about the hand-written Gallina model of Message::factor
              "schema parse, multiset retention) applied to the input bytes and to the dump of the accepted message; the model "
              "is tied to the real decoder by differential execution on mutated valid messages generated from the metadata "
              "dumped from the compiled schema classes")
-LEVEL_TEXT = ("see coq/Props/Properties_C04.v: soundness of acceptance for ALL byte strings (checksum, mandatory fields, "
-              "duplicates, first field of group elements), three independent refutations of retention, exactness "
-              "(accepted <=> conforming, and every token retained) under explicit boolean hypotheses on the token sequence; "
-              "the model is tied to Message::factory by identical result lines (exception class and argument, or the complete "
-              "object dump) on every generated case")
+LEVEL_TEXT = ("see coq/Props/Properties_C04.v: c04_accept_sound_partial = soundness of acceptance for ALL byte strings (checksum via "
+              "C07's theorem, mandatory fields, duplicates, first field of group elements at every depth, by invariants of "
+              "decode / decode_group); c04_retains_refuted = three independent kernel-checked refutations of retention (F10, F11, "
+              "F12); c04_exact_partial / c04_exact_retains_partial = on token sequences meeting explicit boolean hypotheses and "
+              "whose tags are all legal at their position the model accepts iff the input conforms, never ends in a memory error, "
+              "hang or fuel exhaustion, and the accepted object retains every token (the oracle c04_ok holds on the model's "
+              "result; proof: lockstep of the decoder model with the spec's greedy parse, unbounded in length and nesting); the "
+              "model is tied to Message::factory by identical result lines (exception class and argument, or the complete object "
+              "dump) on every generated case")
 LEVEL_NOTE = ("Trusted: Coq kernel, extraction (ExtrOcamlBasic), the hand transcription in coq/Codec (checked by the "
               "correspondence run), the metadata dump of harness/meta_dump.hpp, the OCaml driver's parsers, vlib generators.")
 DESIGN_REF = "DESIGN.md section 4, Codec group, C04 (findings F10, F11, F12)"
@@ -29,7 +33,12 @@ ASSUMPTIONS = ["values contain neither SOH nor NUL and are shorter than 2048 byt
                "float / date / time texts are canonical for their type (render is the identity on them; C08 / C09 own the conversions)",
                "cases whose int-typed texts carry a sign run on a harness built without sanitizers: fast_atoi<int> left-shifts the "
                "negative intermediate value (UBSan report at f8utils.hpp:630, DESIGN F09), the wrapped result is what the model computes",
-               "the schema metadata satisfies wf_ctx (evaluated by the driver on every run)"]
+               "the schema metadata satisfies wf_ctx (evaluated by the extracted code on every run; the check refuses to run when "
+               "the quick-tier schema FIX42UTEST fails it; FIX44 fails it through field 604 only, see wf_ctx_note in the evidence)",
+               "a Length-typed token directly followed by a piece with more leading digits than its own tag is not generated: "
+               "decode then reads tag[] beyond the bytes written (uninitialised stack; the codec model answers OOB 4; C03 / C06)",
+               "BodyLength texts that read as a negative int are not generated (the shared codec model re-renders the stored "
+               "text of a set() int field, which is not the identity below zero)"]
 RULE = ("valid messages generated from the dumped metadata (every message type; mandatory fields plus a random optional subset; groups "
         "with 0..3 elements nested to the schema's depth; part fields in schema order or shuffled), each with 0..2 mutations drawn from: "
         "unknown tag inserted (anywhere / at the end of a part / inside a group element), tag raised by a multiple of 65536, wrong "
